@@ -18,7 +18,8 @@ RULE = ("pairwise-distinct point clouds (3..30 points; scatter / jittered grid /
         "None/0/small), undamped VectorSpline2D (Poisson ratio in [-1,1] incl. end points), KNeighbors(k=1), Linear and Cubic "
         "(rescale on/off; non-collinear clouds only), Chain(Trend, Spline), Chain(Trend, KNeighbors), Chain(Trend, Linear), "
         "Vector(Spline, Spline), Vector(KNeighbors, Cubic), Chain(Vector(Trend, Trend), VectorSpline2D), all fitted and predicted "
-        "at the same points; Trend of degree 0..4 fitted to a random polynomial of total degree <= N and evaluated at OTHER points. "
+        "at the same points; a fixed stream of 4 thin two-cluster layouts x {Linear, Cubic}(rescale=False) (known finding F17: NaN at "
+        "a data point); Trend of degree 0..4 fitted to a random polynomial of total degree <= N and evaluated at OTHER points. "
         "Coq evaluates on exact dyadics |predict - truth| <= 1e3 * 2^-52 * kappa * max|truth| (kappa = condition number of the "
         "column-scaled system from numpy SVD, passed exactly; kappa > 1e12 -> counted skip); for the least-squares interpolators "
         "also the C02 certificate of the fitted parameters (agree); for KNeighbors bit-exact equality with the data and with the "
@@ -286,13 +287,52 @@ def generate(tier, seed):
         cases.append(composite_case(rnd, i))
     for i in range(20 if q else 200):
         cases.append(trend_poly_case(rnd, i))
+    cases.extend(thin_cases())
+    return cases
+
+
+# deterministic thin-triangulation witnesses (two tight clusters): scipy's Delaunay.find_simplex returns -1 for a hull
+# vertex, so Linear/Cubic(rescale=False) predict NaN AT A DATA POINT (known finding F17); layout 2 has no offset at all
+THIN_LAYOUTS = [
+    ([10778.978903660258, 13452.608060274664, 10733.427101825906, 13584.529134417486, 10846.027522695942, 13418.221306128455, 10624.116658589695, 13588.336287813854, 10845.609249824543],
+     [4391.676441557876, 2100.908669002415, 4473.616950740503, 2187.39196324411, 4434.769706501367, 2140.1683379461147, 4473.339781549647, 2065.9315712075795, 4461.858909730165]),
+    ([514.5851131709663, 1540.6043312057732, 480.7820886773036, 1521.380351835127, 490.9619014099803, 1550.5608791359762, 518.3301990178882],
+     [1280.1857919667953, 1562.9953385442948, 1308.7638351050946, 1560.3281887843807, 1272.8095648978385, 1587.1028147200313, 1309.1941209787378]),
+    ([0.5261680339642513, 0.2558492697527155, 0.5122833635378381, 0.2567880086838299, 0.5144306097766627, 0.25268031520621326, 0.5205584071132926, 0.2618266710291542],
+     [0.808148027616729, 0.45990794740014884, 0.8042374075268677, 0.4674293599756638, 0.7970770399253131, 0.4629830619528762, 0.8030765308667743, 0.4675647869054446]),
+    ([-8.118324860049912, -7.88768520592463, -8.136723802783495, -7.889106177609343, -8.140091936614795, -7.900320070630911, -8.125808655436515, -7.900884282719932, -8.130155102950186, -7.892054307642286, -8.122121305184487, -7.900924654878147],
+     [2.723579213264746, 3.1615166323783948, 2.71442056344499, 3.1668615006193424, 2.7101354608297297, 3.1651680565494367, 2.720320567529053, 3.1431280795983514, 2.7119744390273257, 3.164935286728915, 2.7088176541185502, 3.1487134644267476]),
+]
+THIN_STREAM = "thin-triangulation"
+
+
+def thin_cases():
+    """fixed inputs, independent of the seed: cases that come out fine are simply ok"""
+    cases = []
+    for k, (e, nn) in enumerate(THIN_LAYOUTS):
+        e, nn = np.array(e), np.array(nn)
+        data = np.arange(1, e.size + 1, dtype=float) * (-1.0) ** np.arange(e.size)
+        for kind in ("Linear", "Cubic"):
+            expr = "vd.%s(rescale=False)" % kind
+            inp = {"estimator": expr, "coordinates": [e.tolist(), nn.tolist()], "data": data.tolist(), "layout": "thin two-cluster witness %d" % k}
+            repro = mk_repro(expr, (e, nn), data)
+            est, pred = run(expr, (e, nn), data)
+            pf = flat(pred)
+            if not np.all(np.isfinite(pf)):
+                bad = np.flatnonzero(~np.isfinite(pf))
+                cases.append(Case(inp, {"non_finite_predictions": int(bad.size), "at_data_points": bad.tolist()}, "Vviol", repro,
+                                  "%s/%s/nan-at-data-point" % (THIN_STREAM, kind.lower())))
+            else:
+                cases.append(Case(inp, {"max_abs_misfit": float(np.max(np.abs(pf - data)))},
+                                  "c01_passthrough %s %s" % (dl(data), dl(pf)), repro, "%s/%s" % (THIN_STREAM, kind.lower())))
     return cases
 
 
 def finding_key(case):
     # only the narrow signature of the reported scipy behaviour: ONE data point (a hull vertex) predicted NaN by a
     # plain Linear/Cubic with rescale=False; anything broader (many NaNs, other estimators) stays a violation
-    if case.kind in ("linear/nan-at-data-point", "cubic/nan-at-data-point") and "rescale=False" in case.inp["estimator"] \
+    if case.kind in ("linear/nan-at-data-point", "cubic/nan-at-data-point", THIN_STREAM + "/linear/nan-at-data-point",
+                     THIN_STREAM + "/cubic/nan-at-data-point") and "rescale=False" in case.inp["estimator"] \
             and isinstance(case.out, dict) and case.out.get("non_finite_predictions") == 1:
         return "C01-scipy-find_simplex-misses-hull-vertex"
     return None
